@@ -23,6 +23,9 @@ def pivot():
     S.append(EnumSpec("NonAscii", [U("Mass", serialize=["Maß"], aci=True), U("E1", serialize=["é1"], aci=True),
                                    U("Plain", serialize=["Été"])],
                       derives=d, note="case-insensitive spellings with non-ASCII letters (ß, é must match exactly)"))
+    S.append(EnumSpec("UpperNonAscii", [U("Uber", serialize=["\u00dcber"], aci=True), U("Ecole", serialize=["\u00c9a"], aci=True),
+                                        U("Kel", serialize=["\u212a1"], aci=True), U("Low", serialize=["\u00fcb"], aci=True)],
+                      derives=d, note="case-insensitive spellings containing non-ASCII UPPER-case letters (U+00DC, U+00C9, Kelvin sign): they fold to nothing"))
     S.append(EnumSpec("Digits", [U("N1", serialize=["123"], aci=True), U("N2", serialize=["4-5"]), U("Mix", serialize=["a1B2"], aci=True)],
                       derives=d, note="digits only / punctuation / mixed"))
     S.append(EnumSpec("Sa", [U("DarkBlack"), U("KissMe", aci=False), U("SkI")], derives=d, aci=True, serialize_all="snake_case",
